@@ -7,6 +7,7 @@ package vsync
 
 import (
 	"sync"
+	"sync/atomic"
 
 	"github.com/wader/fq/internal/verif/vhook"
 )
@@ -114,25 +115,31 @@ func (r *rlocker) Unlock() { (*RWMutex)(r).RUnlock() }
 
 type Once struct {
 	real    sync.Once
-	done    bool
+	done    atomic.Bool
 	running bool
 }
 
 func (o *Once) Do(f func()) {
 	s := vhook.Active()
 	if s == nil {
-		o.real.Do(f)
+		if o.done.Load() {
+			return
+		}
+		o.real.Do(func() {
+			f()
+			o.done.Store(true)
+		})
 		return
 	}
 	// a second caller waits until the first finished (sync.Once semantics)
 	s.SyncPoint("Once.Do", func() bool { return !o.running })
-	if o.done {
+	if o.done.Load() {
 		s.Acquire(o)
 		return
 	}
 	o.running = true
 	defer func() {
-		o.done = true
+		o.done.Store(true)
 		o.running = false
 		s.Release(o)
 	}()
